@@ -315,6 +315,11 @@ def run(ctx):
             c['shift_targets'], c['shift_rows'] = ([9, 99] if ctx.quick() else [9, 99, 999]), 'all'
         else:
             c['shift_targets'], c['shift_rows'] = ([9], 'nonblank') if ctx.quick() else ([9, 99], 'all')
+        # a fixture may bound the number of inserted blank lines (rules that measure the file): targets whose shifts
+        # (up to t - 1 lines) could exceed the bound are not asked for
+        m = re.search(r'maxblank(\d+)', c['embed'])
+        if m:
+            c['shift_targets'] = [t for t in c['shift_targets'] if t - 1 <= int(m.group(1))]
     h = vlib.build_harness(ctx, 'c08')
     phase('harness_build')
     mode = ctx.tier
